@@ -3,6 +3,7 @@ package gen
 import (
 	"fmt"
 	"strconv"
+	"strings"
 
 	"verif/harness/ir"
 )
@@ -30,6 +31,8 @@ type Broken struct {
 	Messages []*ir.Message
 	Enums    []*ir.Enum
 	Method   *ir.Method // Input/Output are short names, qualified at placement
+	// PreMethods are VALID methods on the same input message declared before Method.
+	PreMethods []*ir.Method
 }
 
 func child(name string, fields ...string) *ir.Message {
@@ -134,6 +137,12 @@ func BreakJSONRule(r *R, rule, pkgPrefix, tag string) *Broken {
 			b.Messages = append(b.Messages, child(C, "title", "zip_code"))
 			bad.Fields = []*ir.Field{{Name: "title", Number: 1, Kind: "string"},
 				{Name: "home", Number: 2, Kind: "message", TypeName: pkgPrefix + C, Ann: ir.Ann{Flatten: bp(true)}}}
+			if r.Bool() {
+				// the plain field is declared AFTER the flattened one
+				b.Variant = "child vs parent field declared later"
+				bad.Fields = []*ir.Field{{Name: "home", Number: 1, Kind: "message", TypeName: pkgPrefix + C, Ann: ir.Ann{Flatten: bp(true)}},
+					{Name: "title", Number: 2, Kind: "string"}}
+			}
 		} else {
 			b.Variant = "two flattened children, prefixed name equals parent json name"
 			b.Messages = append(b.Messages, child(C, "street"))
@@ -141,7 +150,7 @@ func BreakJSONRule(r *R, rule, pkgPrefix, tag string) *Broken {
 				{Name: "work", Number: 2, Kind: "message", TypeName: pkgPrefix + C, Ann: ir.Ann{Flatten: bp(true), FlattenPrefix: sp("x")}}}
 		}
 		b.Offender = "home"
-		if b.Variant != "child vs parent field" {
+		if !strings.HasPrefix(b.Variant, "child vs parent field") {
 			b.Offender = "work"
 		}
 	case "prefix_without_flatten":
@@ -265,6 +274,11 @@ func BreakHTTPRule(r *R, rule, pkgPrefix, tag string) *Broken {
 		bad.Fields = []*ir.Field{{Name: "id", Number: 1, Kind: "string"}, {Name: "loose", Number: 2, Kind: "string"}}
 		meth.Config = &ir.HTTPConfig{Path: "/things/{id}", Method: Pick(r, []string{"GET", "DELETE"})}
 		b.Offender = "loose"
+		if r.Bool() {
+			// the same request message is first used by a bodiless method that binds EVERY field
+			b.Variant = "after a method binding every field"
+			b.PreMethods = []*ir.Method{{Name: "Full" + tag, Config: &ir.HTTPConfig{Path: "/full/{id}/{loose}", Method: Pick(r, []string{"GET", "DELETE"})}}}
+		}
 	default:
 		panic("unknown rule " + rule)
 	}
@@ -299,6 +313,10 @@ func Place(r *R, idx int, rule, placement string) (*ir.Request, *Broken) {
 		if b.Method != nil {
 			b.Method.Input = ".demo.v1." + b.Method.Input
 			b.Method.Output = b.Method.Input
+			for _, pm := range b.PreMethods {
+				pm.Input, pm.Output = b.Method.Input, b.Method.Output
+				main.Services[0].Methods = append(main.Services[0].Methods, pm)
+			}
 			main.Services[0].Methods = append(main.Services[0].Methods, b.Method)
 		}
 		return req, b
@@ -312,6 +330,10 @@ func Place(r *R, idx int, rule, placement string) (*ir.Request, *Broken) {
 		if b.Method != nil {
 			b.Method.Input = ".demo.v1.Holder" + tag + "." + b.Method.Input
 			b.Method.Output = b.Method.Input
+			for _, pm := range b.PreMethods {
+				pm.Input, pm.Output = b.Method.Input, b.Method.Output
+				main.Services[0].Methods = append(main.Services[0].Methods, pm)
+			}
 			main.Services[0].Methods = append(main.Services[0].Methods, b.Method)
 		}
 		return req, b
@@ -323,7 +345,12 @@ func Place(r *R, idx int, rule, placement string) (*ir.Request, *Broken) {
 		if b.Method != nil {
 			b.Method.Input = ".demo.v1." + b.Method.Input
 			b.Method.Output = b.Method.Input
-			other.Services = []*ir.Service{{Name: "OtherSvc" + tag, Methods: []*ir.Method{b.Method}}}
+			var ms []*ir.Method
+			for _, pm := range b.PreMethods {
+				pm.Input, pm.Output = b.Method.Input, b.Method.Output
+				ms = append(ms, pm)
+			}
+			other.Services = []*ir.Service{{Name: "OtherSvc" + tag, Methods: append(ms, b.Method)}}
 		}
 		req.Files = append(req.Files, other)
 		req.Generate = append(req.Generate, other.Name)
